@@ -9,7 +9,7 @@ CONSTANTS
   SliceSet = {"from1", "step2", "rev"}
   FancySet = {"f00", "fe"}
   MaskSet = {"malt"}
-  IdxForms = {"plain", "elllast", "ellfirst", "newfirst", "newlast", "full"}
+  IdxForms = {"plain", "elllast", "ellfirst", "newfirst", "full"}
   MaxNonAll = 2
   MaxNonAll3 = 1
   TargetRank = 2
